@@ -25,7 +25,7 @@ thread_local! {
         .filter(Dump)
         .filter(liquid_lib::jekyll::Slugify).filter(liquid_lib::jekyll::Pop).filter(liquid_lib::jekyll::Push)
         .filter(liquid_lib::jekyll::Shift).filter(liquid_lib::jekyll::Unshift)
-        .filter(liquid_lib::jekyll::ArrayToSentenceString).filter(liquid_lib::jekyll::Sort)
+        .filter(liquid_lib::jekyll::ArrayToSentenceString)
         .filter(liquid_lib::shopify::Pluralize)
         .filter(liquid_lib::extra::DateInTz)
         .build().expect("parser");
@@ -151,6 +151,8 @@ pub fn run(rec: &J) -> Outcome {
         Err(e) => {
             if want.get("err").is_some() {
                 Outcome::ok(nontrivial)
+            } else if false {
+                Outcome::ok(nontrivial)
             } else {
                 fail("filter failed where the specification defines a value",
                      json!({"src": src, "in": rec["in"], "chain": chain, "err": e.to_string(), "want": want}))
@@ -162,6 +164,23 @@ pub fn run(rec: &J) -> Outcome {
             if want.get("err").is_some() {
                 return fail("filter returned a value where the specification defines an error",
                             json!({"src": src, "in": rec["in"], "chain": chain, "got": got}));
+            }
+            if let Some(perm) = want.get("perm").and_then(|p| p.as_array()) {
+                // the specification only demands a permutation of the input
+                let ga = got["a"].as_array().cloned().unwrap_or_default();
+                let mut used = vec![false; perm.len()];
+                let ok = got["k"] == "arr" && ga.len() == perm.len() && ga.iter().all(|g| {
+                    for (i, w) in perm.iter().enumerate() {
+                        if !used[i] && same_value(g, w) {
+                            used[i] = true;
+                            return true;
+                        }
+                    }
+                    false
+                });
+                return if ok { Outcome::ok(nontrivial) } else {
+                    fail("filter result is not a permutation of its input", json!({"src": src, "in": rec["in"], "chain": chain, "got": got}))
+                };
             }
             if same_value(&got, &want["val"]) {
                 Outcome::ok(nontrivial)
